@@ -1,23 +1,14 @@
-(** Known-finding classifiers of C10.  NONE is left: every class once recorded here was
-    repaired in /repo and the theorems of Props/C10.v hold for those inputs unconditionally.
+(** Known-finding classifiers of C10: NONE.  Every class once recorded here was repaired in
+    /repo and the theorems of Props/C10.v hold for those inputs unconditionally:
       json-escape-borrowed          bb69bb9  (main reader reads digests and paths as Cow<str>)
       validator-json-escape         2f36fc5  (validator reads every string as Cow<str> / String)
       id-trimmed                    031a721  (create_object stores the id as given)
       cdir-empty, cdir-collides-with-inventory
                                     d88c1da  (create_object refuses blank, inventory.json and inventory.json.<anything>)
-
-    What remains is NOT a defect in the sense of C10 (rocfl reading back what rocfl wrote):
-    the main reader (src/ocfl/serde.rs) still deserializes exactly two positions through a
-    borrowed-only type, [head] (serde.rs:150) and the keys of [versions] (serde.rs:244-245),
-    both [VersionNum] with #[serde(try_from = "&str")] (types.rs:43).  A token with a JSON
-    escape sequence there (e.g. `"v" + backslash + "u0031"`, legal JSON for v1) is refused with "expected a
-    borrowed string".  rocfl itself never writes such a token (Proofs/JsonPosFacts.v,
-    [version_name_never_escaped]); only inventories written by other software can contain
-    it.  The classifier below names exactly that residual input class; it takes the raw
-    TOKEN, not the string.  rocfl validate (validate/serde.rs:280, 572) accepts these
-    tokens. *)
-From Rocfl Require Import Base.Bytes Model.Json.
-Open Scope N_scope.
-
-Definition c10_foreign_escaped_version_name (p : pos) (tok : bytes) : bool :=
-  main_pos_borrowed p && has_escape tok.
+    (and 29bc659: create_object refuses a content directory that cannot be a file name, found
+    and repaired without ever being a recorded class).
+    The file is kept, without definitions, so that the layout "one Known file per property"
+    stays uniform; nothing imports it.  The residual difference between the main reader and a
+    conforming decoder (an escaped spelling of head / a version key, written by other software
+    only) is a hypothesis of the foreign-spelling theorems, [Json.escaped_version_name_token]. *)
+From Rocfl Require Import Base.Bytes.
